@@ -122,7 +122,7 @@ def add_schema_invariants(draw: Any, spec: Spec, opts: Opts, used: set) -> None:
         own = {p.name for p in c.props}
         for p in props:
             # more invariants on own properties, fewer (tightenings) on inherited ones
-            pr = 0.6 if p.name in own else 0.25
+            pr = 0.6 if p.name in own else (0.5 if len(c.bases) >= 1 else 0.25)
             if not g.chance(pr):
                 continue
             t = p.type.core
@@ -131,7 +131,9 @@ def add_schema_invariants(draw: Any, spec: Spec, opts: Opts, used: set) -> None:
             if prim in ("str", "bytearray") or t.kind == "list":
                 forms += ["len", "len", "len", "len_near"]
             if prim == "str" and pfns:
-                forms += ["pattern", "pattern", "pattern2", "pattern_near"]
+                forms += ["pattern", "pattern", "pattern2", "pattern2", "pattern_near"]
+                if len(pfns) >= 3:
+                    forms += ["pattern3", "pattern3"]
             ssets = [k for k in spec.consts if (k.kind == "set_str" and prim == "str" and t.kind == "prim")
                      or (k.kind == "set_int" and prim == "int" and t.kind == "prim")
                      or (k.kind == "set_enum" and t.kind == "enum" and k.enum == t.name)]
@@ -144,7 +146,9 @@ def add_schema_invariants(draw: Any, spec: Spec, opts: Opts, used: set) -> None:
                 e = f"self.{p.name}"
                 tags = {}  # type: Dict[str, Any]
                 if f == "len":
-                    body, tags = g.len_atom(f"{c.name}.{p.name}", e)
+                    # one range per property over the whole hierarchy keeps tightenings of different
+                    # descendants (diamond arms) mutually satisfiable most of the time
+                    body, tags = g.len_atom(f"prop:{p.name}", e)
                     tags["recognised"] = True
                 elif f == "len_near":
                     k = draw(st.integers(0, 4))
@@ -159,6 +163,11 @@ def add_schema_invariants(draw: Any, spec: Spec, opts: Opts, used: set) -> None:
                     fn1, fn2 = g.pick(pfns), g.pick(pfns)
                     body = f"{fn1.name}({e}) and {fn2.name}({e})"
                     tags = {"form": "pattern", "fns": [fn1.name, fn2.name], "recognised": True}
+                elif f == "pattern3":
+                    idx = draw(st.lists(st.integers(0, len(pfns) - 1), min_size=3, max_size=3, unique=True))
+                    fs = [pfns[i] for i in idx]
+                    body = " and ".join(f"{fn.name}({e})" for fn in fs)
+                    tags = {"form": "pattern", "fns": [fn.name for fn in fs], "recognised": True}
                 elif f == "pattern_near":
                     fn = g.pick(pfns)
                     body = g.pick([f"not {fn.name}({e})", f"{fn.name}({e}) or len({e}) == 0",
